@@ -9,11 +9,13 @@ package main
 import (
 	"context"
 	"encoding/hex"
+	"encoding/json"
 	"flag"
 	"fmt"
 	"math/rand"
 	"net"
 	"os"
+	"os/exec"
 	"runtime"
 	"sort"
 	"strings"
@@ -615,6 +617,7 @@ func mkChunkGen(caseSeed int64, attempts int) chunkGenJ {
 		gen := command.VerifPacketIPPortGenerator(&command.VerifTargetOpts{PortRanges: rs})
 		parent, stop := context.WithCancel(context.Background())
 		c.Chunks = 0
+		var checks []chunkSeen
 		for i := 0; i < len(rs); i += 200 {
 			end := i + 200
 			if end > len(rs) {
@@ -647,7 +650,12 @@ func mkChunkGen(caseSeed int64, attempts int) chunkGenJ {
 					}
 				}
 			}
-			cancel() // the engine run is over: startScanEngine cancels its context
+			cancel() // the engine run is over: startScanEngine cancels its context; the next chunk starts right away
+			checks = append(checks, chunkSeen{i, end, seen})
+		}
+		stop()
+		for _, cs := range checks {
+			i, end, seen := cs.i, cs.end, cs.seen
 			for _, pr := range rs[i:end] {
 				for j := 0; j < size; j++ {
 					n := seen[uint64(a+uint32(j))<<16|uint64(pr.StartPort)]
@@ -660,9 +668,39 @@ func mkChunkGen(caseSeed int64, attempts int) chunkGenJ {
 				}
 			}
 		}
-		stop()
 	}
 	return c
+}
+
+// mkChunkGenChild runs mkChunkGen in a child process: when the generators corrupt shared state a panic in one of their
+// goroutines kills the process, and that is an observation too.
+func mkChunkGenChild(caseSeed int64, attempts int) chunkGenJ {
+	tmp := fmt.Sprintf("%s/chunkgen%d.jsonl", tmpDir, caseSeed&0xffffff)
+	cmd := exec.Command(os.Args[0], "-out", tmp, "-replay", fmt.Sprintf("chunkgenchild:%d:%d", caseSeed, attempts))
+	var stderr strings.Builder
+	cmd.Stderr = &stderr
+	err := cmd.Run()
+	var c chunkGenJ
+	if b, e := os.ReadFile(tmp); e == nil && err == nil && json.Unmarshal(b, &c) == nil {
+		return c
+	}
+	// regenerate the description of the case (same seed) without running it
+	r := hlib.NewRand(caseSeed)
+	k := 20 + r.Intn(2)
+	a, _ := tgt.RandNet4(r, k, k, true)
+	c = chunkGenJ{Kind: "chunkgen", CaseSeed: caseSeed, Class: "tcp-udp:subnet-chunks", Net: fmt.Sprintf("%s/%d", tgt.Dotted(a), k),
+		NRanges: 201 + r.Intn(3), Chunks: 2, Attempts: attempts, NBad: 1}
+	msg := stderr.String()
+	if i := strings.Index(msg, "\n"); i > 0 {
+		msg = msg[:i]
+	}
+	c.Bad = []string{"the process crashes while a later chunk runs (" + msg + ")"}
+	return c
+}
+
+type chunkSeen struct {
+	i, end int
+	seen   map[uint64]int
 }
 
 var stdinContent string
@@ -757,12 +795,16 @@ func main() {
 			w.Put(mkPorts(cs))
 		case "nested":
 			w.Put(mkNested(cs))
-		case "chunkgen":
+		case "chunkgen", "chunkgenchild":
 			att := 1
 			if len(f) > 2 {
 				fmt.Sscan(f[2], &att)
 			}
-			w.Put(mkChunkGen(cs, att))
+			if f[0] == "chunkgenchild" {
+				w.Put(mkChunkGen(cs, att))
+			} else {
+				w.Put(mkChunkGenChild(cs, att))
+			}
 		case "frames":
 			vol, cmd := 2000, "udp"
 			if len(f) > 2 {
@@ -800,7 +842,7 @@ func main() {
 		w.Put(mkChain(r.Int63(), *big))
 	}
 	for i := 0; i < *nchunkgen; i++ {
-		w.Put(mkChunkGen(r.Int63(), *chunkAttempts))
+		w.Put(mkChunkGenChild(r.Int63(), *chunkAttempts))
 	}
 	for i := 0; i < *nframes; i++ {
 		// mostly moderate volumes (also evaluated by the model), every third one a large one
